@@ -300,7 +300,7 @@ PROPS = {
                       "jump to happen in a quiescent model state and to reach exactly the next deadline. Non-trivial = the "
                       "tree has a requirement edge or a windowed scheduler with more direct jobs than its window.",
                  nontrivial=lambda cfg, r: has_edges(cfg, r) or has_tight_window(cfg, r)),
-    "C13": RProp("C13", 3, [130, 111], oracles=['shutdown_once', 'shutdown_quiet', 'shutdown_bound', 'handlers_over'], profile={"nested": 0.45, "timeout": 0.6, "sdur": 0.75, "sd_never": 0.15, "cdur": 0.3,
+    "C13": RProp("C13", 3, [130, 111], oracles=['shutdown_once', 'shutdown_quiet', 'shutdown_bound', 'shutdown_duration', 'handlers_over'], profile={"nested": 0.45, "timeout": 0.6, "sdur": 0.75, "sd_never": 0.15, "cdur": 0.3,
                                                  "never": 0.2, "crit": 0.4, "exc": 0.4, "sdto_none": 0.1},
                  rule="C13: when a co_shutdown() handler starts it must not have started before and no job of the same "
                       "scheduler may be live in the state implied by the events so far; at the end of every run that went "
@@ -310,7 +310,7 @@ PROPS = {
                       "the value returned by every co_shutdown(), the late explicit shutdown() after the run, and requires a "
                       "terminal final state. Non-trivial = some job has a shutdown handler of non-zero duration.",
                  side=orphan_side, nontrivial=lambda cfg, r: any((not j["sched"]) and j["sdur"] for j in cfg["jobs"])),
-    "C14": RProp("C14", 0, [140], profile={"window": 0.6, "exc": 0.4},
+    "C14": RProp("C14", 0, [140], oracles=["truth"], profile={"window": 0.6, "exc": 0.4},
                  rule="C14: at every quiescent point and after the run, the public predicates of every job (is_idle, "
                       "is_scheduled, is_running, is_done, result/exception identity) are compared with the state implied "
                       "by the events so far and checked for internal consistency. Non-trivial = at least 2 jobs.",
